@@ -4,6 +4,10 @@ import json, subprocess
 
 CHECKS = {
  # id: (technique, level text, level note, design ref)
+ "C01": ("kind-directed program generation + mutation, rejection-sampled to accepted programs; crash/hang oracle on the back end in isolated workers",
+         "Exploration: tens of thousands (quick) to millions (thorough) of generated module sets that the real load+compile accepts are evaluated and turned into YAML; a panic, abort, stack overflow or CPU-limit is a violation, a located error value is not. The generators cover the full language incl. multi-module programs, functions, recursion, references and the kind confusions the checker's coarse tags admit. Four root causes are known findings (F1-F4) with narrow signatures; anything else fails the check.",
+         "Trusts the in-memory Loader wrapper (it calls the real parse and compile) and the structural labels computed through oal's public syntax API that serve as preconditions of the known findings.",
+         "DESIGN.md §4 C01"),
  "C04": ("grammar-aware text fuzzing + exhaustive short token sequences, crash/hang oracle over four front ends",
          "Exploration: every token-kind sequence up to length 3 (all 54 kinds) / 5 (reduced alphabet), plus hundreds of thousands of generated texts, mutants and nesting templates are pushed through parse, the playground entry point, the real oal-cli and the real oal-lsp; any panic, abort, stack overflow, CPU-limit or wrong exit status is a violation. It cannot show absence of crashing inputs outside the explored set.",
          "Trusts the OS process model (exit status, signals, RLIMIT_CPU) and that the harness's own text splitter is only used for non-triviality counting. Known-finding signatures are matched narrowly (panic file + message head + structural label).",
